@@ -434,7 +434,7 @@ def run(ctx):
     # block boundaries: the section laid out so that boundaries of every power-of-two block size (and of multiples of 1000)
     # fall right behind, just after and inside its lines; > 2^20 characters; through from_file and from_filepath
     from chartgen import judge_block_alignment
-    judge_block_alignment(ctx, "C06", ['track', 'sync', 'events', 'song'])
+    judge_block_alignment(ctx, "C06", ['track', 'sync', 'events', 'song'], straddle_events=True)
     ctx.assumptions += [
         "the routing table is the .chart format's (Easy/Medium/Hard/Expert x Single, DoubleGuitar, DoubleBass, DoubleRhythm, Keyboard, Drums, GHLGuitar, GHLBass, GHLCoop, GHLRhythm)",
         "BOM independence is required only for Chart.from_filepath",
